@@ -387,7 +387,9 @@ func (r *resolver) copyOverSubmoduleData(main *Module, sub *Module) error {
 		main.groupings[g.ident] = g
 	}
 	for _, i := range sub.imports {
-		main.imports[i.moduleName] = i
+		// (under a key of its own: the module and its submodules may well import the same module,
+		// each of their import statements has to be resolved)
+		main.imports[sub.ident+" "+i.moduleName] = i
 	}
 	main.extensions = append(main.extensions, sub.extensions...)
 	main.augments = append(main.augments, sub.augments...)
